@@ -38,6 +38,65 @@ var siblingSwaps = map[string]string{
 func genMutants(repo string, files []string, ranges map[string][][2]int, max int, seed int64) []sweepMutant {
 	var all []sweepMutant
 	const slack = 6
+	// anchored files without line ranges: only the functions that the ranged code calls (by name)
+	if len(ranges) > 0 {
+		called := map[string]bool{}
+		for _, rel := range files {
+			if len(ranges[rel]) == 0 {
+				continue
+			}
+			fs := token.NewFileSet()
+			f, err := parser.ParseFile(fs, filepath.Join(repo, rel), nil, 0)
+			if err != nil {
+				continue
+			}
+			ast.Inspect(f, func(n ast.Node) bool {
+				call, ok := n.(*ast.CallExpr)
+				if !ok {
+					return true
+				}
+				ln := fs.Position(call.Pos()).Line
+				in := false
+				for _, r := range ranges[rel] {
+					if ln >= r[0]-slack && ln <= r[1]+slack {
+						in = true
+					}
+				}
+				if !in {
+					return true
+				}
+				switch fn := call.Fun.(type) {
+				case *ast.Ident:
+					called[fn.Name] = true
+				case *ast.SelectorExpr:
+					called[fn.Sel.Name] = true
+				case *ast.IndexExpr:
+					if id, ok := fn.X.(*ast.Ident); ok {
+						called[id.Name] = true
+					}
+				}
+				return true
+			})
+		}
+		for _, rel := range files {
+			if len(ranges[rel]) > 0 {
+				continue
+			}
+			fs := token.NewFileSet()
+			f, err := parser.ParseFile(fs, filepath.Join(repo, rel), nil, 0)
+			if err != nil {
+				continue
+			}
+			for _, d := range f.Decls {
+				if fd, ok := d.(*ast.FuncDecl); ok && called[fd.Name.Name] && fd.Body != nil {
+					ranges[rel] = append(ranges[rel], [2]int{fs.Position(fd.Pos()).Line + slack, fs.Position(fd.End()).Line - slack})
+				}
+			}
+			if len(ranges[rel]) == 0 {
+				ranges[rel] = [][2]int{{-100, -100}}
+			}
+		}
+	}
 	inRange := func(rel string, line int) bool {
 		rs := ranges[rel]
 		if len(rs) == 0 {
